@@ -46,6 +46,28 @@ def run(ctx):
                   ("putscript", (v, r.choice(vals))), ("putscript", ("name", v)), ("checkscript", (v,)), ("renamescript", (v, r.choice(vals))),
                   ("renamescript", ("old", v))]
     calls += [("listscripts", ()), ("capability", ()), ("logout", ())]
+    # calls whose complete wire form is exactly a power-of-two number of octets (block sizes a sender may work in): one command
+    # means one command at every length
+    def wire_len(op, args):
+        """length of the one command RFC 5804 prescribes for the call (computed here, not taken from the client)"""
+        if op == "putscript":
+            n_, b_ = args[0].encode(), args[1].encode()
+            return len(b'PUTSCRIPT "%s" {%d+}\r\n' % (n_, len(b_))) + len(b_) + 2
+        if op == "checkscript":
+            b_ = args[0].encode()
+            return len(b"CHECKSCRIPT {%d+}\r\n" % len(b_)) + len(b_) + 2
+        return len(b'DELETESCRIPT "%s"\r\n' % args[0].encode())
+    sized = 0
+    for target in (1024, 2048, 4096, 8192, 12288, 16384, 65536):
+        for mk in (lambda L: ("putscript", ("main", "k" * L)), lambda L: ("checkscript", ("c" * L,)), lambda L: ("deletescript", ("d" * L,)),
+                   lambda L: ("putscript", ("n" * L, "keep;\r\n"))):
+            for L in range(max(target - 60, 1), target):
+                op_, args_ = mk(L)
+                if wire_len(op_, args_) == target:
+                    calls.append((op_, args_))
+                    sized += 1
+                    break
+    ctx.notes.append("calls whose wire form is exactly 1024…65536 octets: %d" % sized)
     viol, lines, expect = [], [], []
     all_written, spec_diffs = [], []
     evals = nontriv = 0
